@@ -1230,7 +1230,8 @@ func (b *beacon) SelectExpiredForPatch(howMany int) []treasure.Treasure {
 //
 // ExpirationTime == 0 entries are skipped (the convention is that 0
 // means "never expires" and such entries do not belong in the
-// expiration index).
+// expiration index). Entries whose key is no longer present in
+// treasuresByKeys (deleted while they were claimed) are skipped as well.
 func (b *beacon) ReindexExpiration(treasures []treasure.Treasure) {
 	if len(treasures) == 0 {
 		return
@@ -1267,6 +1268,14 @@ func (b *beacon) ReindexExpiration(treasures []treasure.Treasure) {
 	}
 	for _, t := range treasures {
 		if t.GetExpirationTime() == 0 {
+			continue
+		}
+		// A treasure that was deleted from the beacon while it was claimed
+		// (SelectExpiredForPatch leaves claimed entries in treasuresByKeys,
+		// Delete removes them from there) must not be re-inserted into the
+		// ordered slice, otherwise a later ShiftExpired / SelectExpiredForPatch
+		// would hand out a deleted treasure again.
+		if _, stillIndexed := b.treasuresByKeys[t.GetKey()]; !stillIndexed {
 			continue
 		}
 		b.treasuresByOrder = append(b.treasuresByOrder, t)
